@@ -1,0 +1,8 @@
+//go:build !verif
+
+package commitlog
+
+// crashPoint marks a point between two file-system effects. It does nothing
+// unless the package is built with the verif build tag, in which case it can
+// kill the process there to exercise crash recovery.
+func crashPoint(name string) {}
